@@ -138,6 +138,8 @@ def families(tier, rng):
     fams.append(("random", common.random_family(rng, 1200 if big else 240, features=dict(raises=False)),
                  "seeded random machines without raise (so every action's event is the bracket's event)"))
     fams.append(("random_r", common.random_family(rng, 600 if big else 120), "seeded random machines with raise/always/onDone"))
+    fams.append(("nested_par", common.nested_parallel_family(rng, 200 if big else 40),
+                 "a parallel state holding a nested parallel state with 2-4 equal-depth sub-regions, left by transitions whose domain is the outer parallel state"))
     return fams
 
 
